@@ -35,7 +35,8 @@ PINNED = {
     "C16": [("crates/jet1090/src/source.rs", None), (C, r"FromStr for Position|struct Position"),
             ("crates/rs1090/src/data/airports.rs", None)],
     "C17": [("crates/jet1090/src/main.rs", r"fn update|impl Jet1090|struct Jet1090|enum SortKey"),
-            ("crates/jet1090/src/table.rs", r"fn build_table"), ("crates/jet1090/src/verif_driver.rs", None)],
+            ("crates/jet1090/src/table.rs", r"fn build_table"), ("crates/jet1090/src/verif_driver.rs", None),
+            ("crates/jet1090/src/tui.rs", None)],
     "C18": [(D + "time.rs", None)],
 }
 import re
